@@ -59,7 +59,7 @@ type c03Case struct {
 func genC03(t *rapid.T) c03Case {
 	g := &fgen{t: t, maxAtoms: 6, maxDepth: 1, maxWidth: 2, budget: 3}
 	var c c03Case
-	c.Profile.Name = rapid.SampledFrom([]string{"c03", "My Profile", "p-1"}).Draw(t, "pname")
+	c.Profile.Name = rapid.SampledFrom([]string{"c03", "My Profile", "p-1", "  indented name", "trailing blank ", "\tTabbed\t", "ends with a line break\n", "42", "true", "Profile: with # specials", "ünïcode ✓"}).Draw(t, "pname")
 	nv := rapid.IntRange(0, 6).Draw(t, "validations")
 	levels := []string{"violation", "warning", "info", ""}
 	for i := 0; i < nv; i++ {
